@@ -2,6 +2,7 @@ package rules
 
 import (
 	"go/ast"
+	"go/token"
 	"go/types"
 	"strings"
 
@@ -16,6 +17,8 @@ func init() {
 			"the template renderer reports a context variable as undefined exactly on its missing-value edge and records it in the collector; the literal→JSON writer, the value copier and the printer cover all nine value kinds or fail loudly. " +
 			"It does not decide character-level equality of literals and JSON nor validity of the variables object for all spellings (value level).",
 		Mutants: []Mutant{
+			{Name: "the content of a string literal is copied between JSON quotes as it is written (reverts the F100 fix)", File: "v2/pkg/ast/ast_value.go", Rule: "C15-R7", Key: "Document.writeJSONValue/string-content-converted:StringValueContentBytes",
+				Old: "\t\t\tbuf.WriteByte('\"')\n\t\t\twriteStringContentAsJSON(buf, d.StringValueContentBytes(value.Ref))\n\t\t\tbuf.WriteByte('\"')\n", New: "\t\t\tbuf.Write(quotes.WrapBytes(d.StringValueContentBytes(value.Ref)))\n"},
 			{Name: "a null default of a list variable is wrapped into a list (reverts the F83 fix)", File: "v2/pkg/astnormalization/variables_default_value_extraction.go", Rule: "C15-R6", Key: "variablesDefaultValueExtractionVisitor.EnterVariableDefinition/null-never-wrapped",
 				Old: " && valueBytes[0] != '[' && !bytes.Equal(valueBytes, literal.NULL) {", New: " && valueBytes[0] != '[' && !bytes.Equal(valueBytes, literal.TRUE) {"},
 			{Name: "variables view falls back to the canonical name after a remap miss (seeded change C15-21)", File: "v2/pkg/engine/resolve/variables_view.go", Rule: "C15-R5", Key: "VariablesView.Get/remap-consulted-before-lookup",
@@ -44,6 +47,7 @@ func init() {
 func runC15(r *fw.Run) {
 	defer c15EveryEntryPointUnNulls(r)
 	defer c15NullIsNeverWrappedIntoAList(r)
+	defer c15StringContentReachesJSONThroughAConverter(r)
 	// a variable's value reaches the subgraph through VariablesView: a lookup that can fall back to a different client
 	// variable (an omitted $foo renamed to $a picking up the client's own "a") changes the value that is sent
 	defer variablesByNameOnlyThroughView(r, "C15-R5")
@@ -412,4 +416,234 @@ func c15NullIsNeverWrappedIntoAList(r *fw.Run) {
 		in.Run(nil)
 	}
 	r.Expect("C15-R6", "list wraps of rendered literals in the normalizer", n, 1)
+}
+
+// c15StringContentReachesJSONThroughAConverter (R7): the content of a GraphQL string literal is not the content of a JSON
+// string: a raw horizontal tab is legal in the one and not in the other, `\u{1F600}` exists only in GraphQL, a block
+// string has no escapes at all. Where the literal→JSON writer handles a string value, what a content accessor
+// (…StringValueContent…) returns is consumed by a converter — encoding/json, or a function that inspects the bytes it is
+// given (a loop that indexes its []byte / string parameter and compares an element with a constant) — never written as it
+// is or merely wrapped in quotes. Sibling agreement inside one switch arm: the block-string side went through
+// json.Encoder, the other side through quotes.WrapBytes.
+func c15StringContentReachesJSONThroughAConverter(r *fw.Run) {
+	p := r.Prog
+	r.Rule("C15-R7", "in the literal→JSON writer whatever a string content accessor returns is consumed by a converter (encoding/json, or a function that inspects the bytes of its parameter), directly or through a local — never written or wrapped as it is")
+	fi := p.Func("ast", "Document.writeJSONValue")
+	if fi == nil {
+		r.Error("C15-R7: ast.Document.writeJSONValue not found")
+		return
+	}
+	info := fi.Info()
+	// converters among the loaded functions: a []byte / string parameter indexed in a loop and compared with a constant
+	inspects := func(g *fw.FuncInfo) bool {
+		ginfo := g.Info()
+		sig := g.Obj.Type().(*types.Signature)
+		params := map[types.Object]bool{}
+		for i := 0; i < sig.Params().Len(); i++ {
+			t := sig.Params().At(i).Type()
+			if sl, ok := t.Underlying().(*types.Slice); ok && types.Identical(sl.Elem(), types.Typ[types.Byte]) {
+				params[sig.Params().At(i)] = true
+			}
+			if b, ok := t.Underlying().(*types.Basic); ok && b.Kind() == types.String {
+				params[sig.Params().At(i)] = true
+			}
+		}
+		if len(params) == 0 {
+			return false
+		}
+		found := false
+		fw.WalkAll(g.Decl.Body, func(nd ast.Node) bool {
+			var body *ast.BlockStmt
+			switch x := nd.(type) {
+			case *ast.ForStmt:
+				body = x.Body
+			case *ast.RangeStmt:
+				body = x.Body
+			}
+			if body == nil {
+				return true
+			}
+			// locals of the loop that hold an element of the parameter
+			elems := map[types.Object]bool{}
+			isElem := func(e ast.Expr) bool {
+				e = ast.Unparen(e)
+				if ix, ok := e.(*ast.IndexExpr); ok {
+					if id, isID := ast.Unparen(ix.X).(*ast.Ident); isID && params[ginfo.Uses[id]] {
+						return true
+					}
+				}
+				if id, ok := e.(*ast.Ident); ok && elems[ginfo.Uses[id]] {
+					return true
+				}
+				return false
+			}
+			fw.WalkAll(body, func(x ast.Node) bool {
+				if as, ok := x.(*ast.AssignStmt); ok && len(as.Lhs) == len(as.Rhs) {
+					for i, l := range as.Lhs {
+						if id, isID := l.(*ast.Ident); isID && isElem(as.Rhs[i]) {
+							elems[ginfo.ObjectOf(id)] = true
+						}
+					}
+				}
+				return true
+			})
+			fw.WalkAll(body, func(x ast.Node) bool {
+				if b, ok := x.(*ast.BinaryExpr); ok {
+					_, cx := fw.ConstVal(ginfo, b.X)
+					_, cy := fw.ConstVal(ginfo, b.Y)
+					if (isElem(b.X) && cy) || (isElem(b.Y) && cx) {
+						found = true
+					}
+				}
+				return true
+			})
+			return true
+		})
+		return found
+	}
+	isConverter := func(fn *types.Func) bool {
+		if fn == nil || fn.Pkg() == nil {
+			return false
+		}
+		if fn.Pkg().Path() == "encoding/json" {
+			return true
+		}
+		if g := p.FuncOf(fn); g != nil {
+			return inspects(g)
+		}
+		return false
+	}
+	isAccessor := func(c *ast.CallExpr) (string, bool) {
+		fn := fw.Callee(info, c)
+		if fn == nil || fw.RecvNameOfFunc(fn) != "Document" {
+			return "", false
+		}
+		if strings.Contains(fn.Name(), "StringValueContent") {
+			return fn.Name(), true
+		}
+		return "", false
+	}
+	n := 0
+	// the consumer of an expression: the innermost call that has it (or something containing it) as an argument
+	var visit func(nd ast.Node, enclosing []*ast.CallExpr)
+	locals := map[types.Object]string{}
+	check := func(name string, consumer *ast.CallExpr, pos token.Pos) {
+		n++
+		okc := consumer != nil && isConverter(fw.Callee(info, consumer))
+		what := "written as it is"
+		if consumer != nil {
+			what = "handed to " + types.ExprString(consumer.Fun)
+		}
+		r.Check(okc, "C15-R7", fi.Name()+"/string-content-converted:"+name, p.Pos(pos), "what "+name+" returns is consumed by a converter in "+fi.Name(),
+			"the content of a string literal ("+name+") is "+what+", which does not look at the bytes: GraphQL string syntax and JSON string syntax differ — `{ str(s: \"a<TAB>b\") }` (a raw U+0009, legal in a GraphQL string) yields the variables `{\"a\":\"a<raw TAB>b\"}`, not valid JSON, and `\"smile \\u{1F600}!\"` reaches the subgraph as the ten characters `\\u{1F600}` instead of U+1F600")
+	}
+	visit = func(nd ast.Node, enclosing []*ast.CallExpr) {
+		fw.WalkAll(nd, func(x ast.Node) bool {
+			switch y := x.(type) {
+			case *ast.AssignStmt:
+				if len(y.Lhs) == len(y.Rhs) {
+					for i, l := range y.Lhs {
+						if id, isID := l.(*ast.Ident); isID {
+							if c, isC := ast.Unparen(y.Rhs[i]).(*ast.CallExpr); isC {
+								if name, isA := isAccessor(c); isA {
+									locals[info.ObjectOf(id)] = name
+								}
+							}
+						}
+					}
+				}
+			}
+			return true
+		})
+		var walk func(e ast.Node, consumer *ast.CallExpr)
+		walk = func(e ast.Node, consumer *ast.CallExpr) {
+			switch y := e.(type) {
+			case *ast.CallExpr:
+				if name, isA := isAccessor(y); isA {
+					// assigned to a local? then the uses of the local are what counts
+					check(name, consumer, y.Pos())
+					return
+				}
+				for _, a := range y.Args {
+					walk(a, y)
+				}
+				walk(y.Fun, consumer)
+			case *ast.Ident:
+				if name, has := locals[info.Uses[y]]; has {
+					check(name, consumer, y.Pos())
+				}
+			default:
+				if e == nil {
+					return
+				}
+				ast.Inspect(e, func(z ast.Node) bool {
+					if z == nil || z == e {
+						return true
+					}
+					switch z.(type) {
+					case *ast.CallExpr, *ast.Ident:
+						walk(z, consumer)
+						return false
+					}
+					return true
+				})
+			}
+		}
+		fw.WalkAll(nd, func(x ast.Node) bool {
+			switch y := x.(type) {
+			case *ast.ExprStmt:
+				walk(y.X, nil)
+				return false
+			case *ast.AssignStmt:
+				for i, rhs := range y.Rhs {
+					// content := accessor(...) only names the content; its uses are checked
+					if c, isC := ast.Unparen(rhs).(*ast.CallExpr); isC && len(y.Lhs) == len(y.Rhs) {
+						if _, isA := isAccessor(c); isA {
+							if _, isID := y.Lhs[i].(*ast.Ident); isID {
+								continue
+							}
+						}
+					}
+					walk(rhs, nil)
+				}
+				return false
+			case *ast.IfStmt:
+				if y.Init != nil {
+					visitStmt := y.Init
+					if as, ok := visitStmt.(*ast.AssignStmt); ok {
+						for _, rhs := range as.Rhs {
+							walk(rhs, nil)
+						}
+					}
+				}
+				walk(y.Cond, nil)
+				return true
+			case *ast.ReturnStmt:
+				for _, res := range y.Results {
+					walk(res, nil)
+				}
+				return false
+			}
+			return true
+		})
+	}
+	kindT := p.Named("ast", "ValueKind")
+	for _, sw := range fw.ConstSwitches(fi, kindT) {
+		for _, c := range sw.Stmt.(*ast.SwitchStmt).Body.List {
+			cc := c.(*ast.CaseClause)
+			isString := false
+			for _, e := range cc.List {
+				if k := fw.ConstObj(info, e); k != nil && k.Name() == "ValueKindString" {
+					isString = true
+				}
+			}
+			if !isString {
+				continue
+			}
+			for _, st := range cc.Body {
+				visit(st, nil)
+			}
+		}
+	}
+	r.Expect("C15-R7", "uses of string literal content in the literal→JSON writer", n, 2)
 }
